@@ -90,7 +90,13 @@ func doFsOp(api fsAPI, client int, op FsOp, handles map[int]filesys.File) (rec f
 	case "ac":
 		api.AtomicCreate(op.D, op.N, model.Chunk(op.ID, op.Len))
 	case "list":
-		rec.Names = append([]string(nil), api.List(op.D)...)
+		got := api.List(op.D)
+		rec.Names = append([]string(nil), got...)
+		// the result belongs to the caller, who may reorder or overwrite it
+		for i := range got {
+			simrt.Yield(-61)
+			got[i] = "#overwritten-by-caller"
+		}
 		sort.Strings(rec.Names)
 	case "mkdir":
 		api.fs.Mkdir(op.D)
